@@ -401,10 +401,16 @@ func IsErrWrap(v ssa.Value) (inner ssa.Value, ok bool) {
 
 // NonNilAt: v is provably a non-nil error at instruction `at`.
 func NonNilAt(v ssa.Value, at ssa.Instruction, depth int) bool {
-	return nonNilAt(v, at, depth, map[ssa.Value]bool{})
+	return nonNilAt(v, at, depth, map[ssa.Value]bool{}, nil)
 }
 
-func nonNilAt(v ssa.Value, at ssa.Instruction, depth int, onStack map[ssa.Value]bool) bool {
+// NonNilAtFrom is NonNilAt for executions that pass through one of the blocks of `from` first: at a phi only the
+// incoming edges whose predecessor lies in `from` count (the others belong to paths that did not come that way).
+func NonNilAtFrom(v ssa.Value, at ssa.Instruction, from map[*ssa.BasicBlock]bool) bool {
+	return nonNilAt(v, at, 0, map[ssa.Value]bool{}, from)
+}
+
+func nonNilAt(v ssa.Value, at ssa.Instruction, depth int, onStack map[ssa.Value]bool, from map[*ssa.BasicBlock]bool) bool {
 	if depth > 8 || v == nil {
 		return false
 	}
@@ -417,7 +423,7 @@ func nonNilAt(v ssa.Value, at ssa.Instruction, depth int, onStack map[ssa.Value]
 	if in, ok := IsErrWrap(v); ok {
 		def, isInstr := v.(ssa.Instruction)
 		if isInstr {
-			return nonNilAt(in, def, depth+1, onStack)
+			return nonNilAt(in, def, depth+1, onStack, from)
 		}
 		return false
 	}
@@ -433,7 +439,7 @@ func nonNilAt(v ssa.Value, at ssa.Instruction, depth int, onStack map[ssa.Value]
 			all := true
 			rets := Returns(cal)
 			for _, ret := range rets {
-				if !nonNilAt(ret.Results[0], ret, depth+1, onStack) {
+				if !nonNilAt(ret.Results[0], ret, depth+1, onStack, nil) {
 					all = false
 				}
 			}
@@ -448,13 +454,18 @@ func nonNilAt(v ssa.Value, at ssa.Instruction, depth int, onStack map[ssa.Value]
 		}
 		onStack[phi] = true
 		defer delete(onStack, phi)
+		counted := 0
 		for i, e := range phi.Edges {
 			pred := phi.Block().Preds[i]
-			if len(pred.Instrs) == 0 || !nonNilAt(e, pred.Instrs[len(pred.Instrs)-1], depth+1, onStack) {
+			if from != nil && !from[pred] && phi.Parent() == at.Parent() {
+				continue
+			}
+			counted++
+			if len(pred.Instrs) == 0 || !nonNilAt(e, pred.Instrs[len(pred.Instrs)-1], depth+1, onStack, from) {
 				return false
 			}
 		}
-		return true
+		return counted > 0
 	}
 	return false
 }
